@@ -154,6 +154,11 @@ const (
 	StratHotPark           // park before writes to possibly shared state, resume right after a peer touched it
 	StratPCT               // probabilistic concurrency testing priorities
 	NumStrategies
+	// StratTarget is never drawn: it is the directed schedule used to build a replayable witness
+	// for a race report.  Tasks run one after the other; the Nth arrival at one of the TargetPark
+	// sites parks that task, the next task runs until it has just executed a TargetPeer (or
+	// TargetPark) statement, and the parked task resumes at once, making the two accesses adjacent.
+	StratTarget = 100
 )
 
 // Natural yield kinds (negative site numbers).
@@ -201,6 +206,47 @@ type Config struct {
 	PCTDepth  int   // pct: number of priority change points + 1
 	PCTLen    int   // pct: estimated run length in yields, change points are drawn from [0,PCTLen)
 	MaxYields int64 // whole-run cap; beyond it the run stops preempting and is marked Discard
+
+	TargetPark []int32
+	TargetPeer []int32
+	TargetNth  int
+}
+
+// SitesAt returns the yield sites of the statement that covers file:line: the sites on that line,
+// or failing that the sites on the closest preceding line of the same file.
+func SitesAt(file string, line int) []int32 {
+	fi := -1
+	for i, f := range FileNames {
+		if f == file {
+			fi = i
+		}
+	}
+	if fi < 0 {
+		return nil
+	}
+	best := int32(-1)
+	for i := range SiteLine {
+		if int(SiteFile[i]) == fi && int(SiteLine[i]) <= line && SiteLine[i] > best {
+			best = SiteLine[i]
+		}
+	}
+	var out []int32
+	for i := range SiteLine {
+		if int(SiteFile[i]) == fi && SiteLine[i] == best {
+			out = append(out, int32(i))
+		}
+	}
+	return out
+}
+
+//go:norace
+func inSites(site int32, set []int32) bool {
+	for i := 0; i < len(set); i++ {
+		if set[i] == site {
+			return true
+		}
+	}
+	return false
 }
 
 // Stats of one multi-task run.
@@ -237,6 +283,9 @@ type sim struct {
 	pctLow  int
 	swHash  uint64
 	parkIn  int64
+
+	targetCount int
+	targetDone  bool
 }
 
 const (
@@ -331,6 +380,15 @@ func (s *sim) pickAny(t *task) *task {
 		}
 		return best
 	}
+	if s.cfg.Strategy == StratTarget {
+		// prefer a task that is not parked, lowest id first
+		for i := 0; i < n; i++ {
+			if !buf[i].parked {
+				return buf[i]
+			}
+		}
+		return buf[0]
+	}
 	return buf[Choose(n)]
 }
 
@@ -388,20 +446,42 @@ func (s *sim) decide(t *task, site int32) {
 	// A parked peer is resumed as soon as this task has just executed a statement touching the
 	// same group of possibly shared state, or when it has waited too long.
 	if p := s.parkedT; p != nil && p != t {
-		if groupsIntersect(t.prevSite, p.parkSite) {
+		hit := false
+		if s.cfg.Strategy == StratTarget {
+			hit = inSites(t.prevSite, s.cfg.TargetPeer) || inSites(t.prevSite, s.cfg.TargetPark)
+		} else {
+			hit = groupsIntersect(t.prevSite, p.parkSite)
+		}
+		if hit {
 			s.parkedT = nil
 			p.parked = false
 			s.st.DirectedResumes++
 			s.switchTo(t, p, site)
 			return
 		}
-		if s.total-p.parkedAt > 20000 {
+		if s.cfg.Strategy != StratTarget && s.total-p.parkedAt > 20000 {
 			s.parkedT = nil
 			p.parked = false
 			s.st.ParkTimeouts++
 		}
 	}
 	switch s.cfg.Strategy {
+	case StratTarget:
+		if site >= 0 && s.parkedT == nil && !s.targetDone && inSites(site, s.cfg.TargetPark) {
+			s.targetCount++
+			if s.targetCount == s.cfg.TargetNth {
+				var buf [maxTasks]*task
+				if n := s.others(t, &buf); n > 0 {
+					s.targetDone = true
+					t.parked = true
+					t.parkSite = site
+					t.parkedAt = s.total
+					s.parkedT = t
+					s.st.Parks++
+					s.switchTo(t, buf[0], site)
+				}
+			}
+		}
 	case StratSequential:
 		if site < 0 {
 			s.natural(t, site)
@@ -741,6 +821,8 @@ func RunTasks(cfg Config, fns []func(), watchdog time.Duration) (Stats, bool) {
 	var first *task
 	if cfg.Strategy == StratPCT {
 		first = s.pickAny(nil)
+	} else if cfg.Strategy == StratTarget {
+		first = s.tasks[0]
 	} else {
 		first = s.tasks[Choose(len(fns))]
 	}
